@@ -59,6 +59,11 @@ func (p Password) Match(pw string) (bool, error) {
 		if err != nil {
 			return false, err
 		}
+		if len(key) == 0 {
+			// a zero-length key would compare equal to the
+			// zero-length hash of any password
+			return false, errors.New("empty key")
+		}
 		salt, err := hex.DecodeString(p.Salt)
 		if err != nil {
 			return false, err
